@@ -291,8 +291,10 @@ Definition step (c : cfg) (s : st) (l : label) : option st :=
     | Some q =>
       match q_pc q, q_kind q with
       | WProc, KVersion =>
-        let ids := flat_map (fun kv => if N.eqb (fst kv) c_NOTAG then []
-                                       else group (length (R s)) (R s) (Some (snd kv))) (reqs s) in
+        (* every outstanding request with an ordinary tag - except the Tversion itself, should it carry one *)
+        let ids := filter (fun i => negb (Nat.eqb i r))
+                     (flat_map (fun kv => if N.eqb (fst kv) c_NOTAG then []
+                                          else group (length (R s)) (R s) (Some (snd kv))) (reqs s)) in
         let rs := mark_flushed (R s) ids in
         let s1 := mkSt (reqs s) rs (F s) (outq s) (wire s) (recvr s) (closed s) (posted s) in
         match getq s1 r with
